@@ -108,7 +108,7 @@ def parse_layer_panics(ctx):
             msg = str(n['msg'])
             site = 'attr.rs parse layer'
             mcode = re.search(r'unreachable code: (\w+)', msg)
-            cls = 'repeat' if 'repeat' in msg else ('unwrap' if 'unwrap' in msg or 'Result::unwrap' in msg else (('unreachable:' + (mcode.group(1) if mcode else '?')) if 'unreachable' in msg else 'panic'))
+            cls = 'repeat' if 'repeat' in msg else ('unwrap' if 'unwrap' in msg or 'Result::unwrap' in msg else (('unreachable:' + (mcode.group(1) if mcode else '?')) if 'unreachable' in msg else ('panic:' + msg[:24].strip())))
             ctx.violation(site, '%s/%s' % (kind, cls), 'derive panics while parsing attribute arguments: %s' % msg[:200], {'input': text, 'native': msg})
         elif (out[0] == 'panic') != (n['status'] == 'panic'):
             ctx.inconclusive.append('ENCODING-MISMATCH (parse layer, panic): %s :: engine %s native %s %s' % (text, out[0], n['status'], n.get('msg')))
